@@ -31,6 +31,9 @@ Inductive case :=
    the number of the value stored last (every store is healthy), what the getter of the long-lived
    object returned and what the getter of a fresh object returned *)
 | Reads (l : list (N * reading * reading))
+(* a store or read call of the real code (or the child process driving it) did not return within its
+   deadline: nothing was read back *)
+| Hung
 
 with hatt := mkHAtt (h_vid : N) (h_fate : fate) (h_data : bytes) (h_tr : list op) (h_read h_read2 : reading)
                     (h_file : bytes).
@@ -42,6 +45,9 @@ Definition h_tr (a : hatt) := let (_, _, _, tr, _, _, _) := a in tr.
 Definition h_read (a : hatt) := let (_, _, _, _, r, _, _) := a in r.
 Definition h_read2 (a : hatt) := let (_, _, _, _, _, r, _) := a in r.
 Definition h_file (a : hatt) := let (_, _, _, _, _, _, b) := a in b.
+
+(* texts with bytes outside printable ASCII are written by the runner as [shex "<hex digits>"] *)
+Definition shex (h : string) : string := string_of_bytes (unhex h).
 
 (* contents are written by the runner as [bytes_of_string "..."] (printable ASCII, the files are JSON)
    or [unhex "..."]; they are decoded once, before the closures are built (vm_compute is call-by-value) *)
@@ -89,10 +95,13 @@ Definition agree (c : case) : bool :=
       atomic_replace_shape 0%N tr && determined [0%N] tr && obytes_eqb (run (fs0 old) tr 0%N) (Some final)
   | Sweep len obs => outcomes_eqb (sweep_model (N.to_nat len)) obs
   | RoundTrip e => e
-  | TopoFile t file e => String.eqb (print_topo t) file
+  (* the model printer writes the bytes of the real file, and the model parser reads them back *)
+  | TopoFile t file e => String.eqb (print_topo t) file && otopo_eqb (parse_topo file) t
   | History g old v0 atts => hist_agree (fs0 old) (RVal v0) atts
   (* the model: a getter returns the value whose bytes the last completed store left in the file *)
   | Reads l => reads_ok (map (fun x => (fst (fst x), snd (fst x))) l) && reads_ok (map (fun x => (fst (fst x), snd x)) l)
+  (* every operation of the model is a total function: the model never hangs *)
+  | Hung => false
   end.
 
 Definition judge (c : case) : bool :=
@@ -100,7 +109,9 @@ Definition judge (c : case) : bool :=
   | Trace g old tr final => crash_safe_b (N.to_nat g) (fs0 old) 0%N tr
   | Sweep len obs => sweep_ok obs
   | RoundTrip e => e
-  | TopoFile t file e => e && otopo_eqb (parse_topo file) t
+  (* the property speaks of the VALUE read back through the real getter, not of the file format (a file
+     with other spacing or a final newline is as good): the format is compared by [agree] *)
+  | TopoFile t file e => e
   (* the specification over histories on what the real getter returned after every attempt, and the
      crash-point specification of every observed attempt in the state the earlier ones left *)
   | History g old v0 atts =>
@@ -111,6 +122,8 @@ Definition judge (c : case) : bool :=
   (* every read - through the long-lived object and through a fresh one - returns the value of the last
      completed store (the history specification with all stores Done: C18_reads_judge_is_hist) *)
   | Reads l => reads_ok (map (fun x => (fst (fst x), snd (fst x))) l) && reads_ok (map (fun x => (fst (fst x), snd x)) l)
+  (* no value was read back: C18_hung_rejected *)
+  | Hung => hung_ok
   end.
 
 Definition tag (c : case) : N :=
@@ -121,6 +134,7 @@ Definition tag (c : case) : N :=
   | TopoFile t _ _ => match tpeers t with [] => 4 | _ => 5 end
   | History _ _ _ atts => if forallb (fun a => fate_eqb (h_fate a) Done) atts then 6 else 7
   | Reads _ => 8
+  | Hung => 9
   end%N.
 
 Definition check_all := check_cases agree judge tag.
